@@ -110,6 +110,8 @@ class Recorder:
         self.controllers = {}
         self.identities = []         # (node id, id(protocol), id(provider)) at initialize
         self.own_pos = []
+        self.time_types = []
+        self._node = None
         self.commands = {}
         self.tick = float(scn.get("tick", TICK))
         self.hard_cap = scn.get("hardCap", HARD_CAP)   # deliberately long runs raise it in the scenario
@@ -117,7 +119,9 @@ class Recorder:
     # -- protocol side ---------------------------------------------------------------------
     def on_callback(self, proto, kind, key, pos=None):
         n = proto.provider.get_id()
-        t = to_ticks(proto.provider.current_time(), self.tick)
+        raw = proto.provider.current_time()
+        t = to_ticks(raw, self.tick)
+        self.time_types.append([n, kind, type(raw).__name__])     # what str()/json of the time would show
         entry = ["cb", n, kind, key, t]
         if pos is not None:
             entry.append(v3bits(pos))
@@ -191,7 +195,10 @@ class Recorder:
     def num(self, x):
         """scenario flag intArgs: integral quantities are handed over as Python ints (a protocol that
         writes `schedule_timer("a", 3)` or `GotoCoordsMobilityCommand(10, 0, 5)` is using the API legitimately)"""
-        if self.scn.get("intArgs") and isinstance(x, float) and x.is_integer() and abs(x) < 2.0 ** 53 \
+        ia = self.scn.get("intArgs")
+        if isinstance(ia, list):
+            ia = self._node in ia            # only these nodes write their numbers as ints
+        if ia and isinstance(x, float) and x.is_integer() and abs(x) < 2.0 ** 53 \
                 and not (x == 0 and str(x).startswith("-")):
             return int(x)
         return x
@@ -199,6 +206,7 @@ class Recorder:
     def perform(self, proto, req):
         p = proto.provider
         op = req[0]
+        self._node = p.get_id()
         if self.scn.get("pollDone") and self.sim is not None:
             # the public, side-effect free status query, asked from inside callbacks as a UI would
             self.sim.is_simulation_done()
@@ -548,7 +556,7 @@ def run_impl(scn, behaviour=None, sim_options=None, draw_seed=0, keep_logging=Fa
         "drawsUsed": used, "draws": [fbits(v) for v in source.values + extra],
         "table": list(rec.table.values()), "crash": crash, "excTypes": rec.exc_types,
         "identities": rec.identities, "ownPos": rec.own_pos, "addedIds": getattr(rec, "added_ids", None),
-        "between": resolved,
+        "between": resolved, "timeTypes": rec.time_types,
     }
 
 
